@@ -23,7 +23,11 @@ DIRECTED = ['swp1:0;acq0:0,sig1,wex2,tch0;wai1,swp0:0',
             # node recycling under an acquisition in progress (type-stable free lists, immediate reuse of the address): thread 0 acquires cell 0 while
             # thread 1 retires the node it points to, is held back (wai) and then publishes a new node - possibly the recycled one - into the same cell
             'acq0:0,tch0,rst0,acq0:0,tch0;swp0:0,wai1,swp0:0;sig1',
-            'acqe0:0,tch0,cpy0:1,rst0,tch1;swp0:0,wai1,swp0:0,swp0:0;sig1']
+            'acqe0:0,tch0,cpy0:1,rst0,tch1;swp0:0,wai1,swp0:0,swp0:0;sig1',
+            # late joiner: thread 0 takes its first guard (acquires its thread record, reads the epoch / era / stamp) while thread 1 and thread 2
+            # advance the epoch twice around it; thread 1 exits, thread 2 - one step behind - retires the node thread 0 holds and passes two more
+            # reclamation points.  One preemption inside thread 0's first acquisition suffices.
+            'wai1,acq0:0,sig4,wai5,tch0;wai1,rgn1,rgn0,sig2,wai3,rgn1,rgn0;rgn1,rgn0,sig1,wai2,rgn1,rgn0,sig3,wex1,wai4,swp0:0,rgn1,rgn0,rgn1,rgn0,sig5']
 
 
 def guards_needed(prog):
